@@ -61,6 +61,27 @@
     macros are unchanged for k = 0..34 (the patch adds no macro before the end of cv_dequeue) and
     the new load of the wait loop is `cv.c/35`.
 
+  OBSERVERS (property C16, cv half): /repo/internal/debug.c `emit_cv_state` called through
+  `nsync_cv_debug_state` (blocking = 0, print_waiters = 0), `nsync_cv_debug_state_and_waiters`
+  (1, 1) and `nsync_cv_debugger` (0, 1) — `DKind`.  Program points `dLd`, `dWalk`, `dRc`, `dRet`;
+  the spinlock acquisition is the shared `nsync_spin_test_and_set_` loop (`spLd0`/`spLd2`/`spCas`
+  with `cont = .dbg`, `set = clear = CV_SPINLOCK`).  The local `word` of emit_cv_state is the frame
+  field `dWord` until the test-and-set overwrites it with its return value (the word just before
+  the spinlock bit was set), which is the frame field `old`; the release store [debug.c/7] must
+  write `old`.  `emit_waiters` under the spinlock walks `cv->waiters` front to back; for every
+  element that is a pooled waiter it performs `ATM_LOAD (&nw->waiting)` [debug.c/0] and
+  `ATM_LOAD (&w->remove_count)` [debug.c/1] (frame field `dIdx` = number of elements printed so
+  far; the plain reads of the element's links, tag, flags, l_type, cond go with these two loads);
+  the walk stops at the first bare `nsync_waiter_s` (DLL_WAITER of it is no `waiter`: tag
+  mismatch) or when the output buffer is full; the remaining plain reads of the walk are performed
+  together with the release store (label: the whole queue).
+  NOT MODELLED: when print_waiters != 0 and the spinlock is NOT taken (CV_NON_EMPTY clear at the
+  load, or nsync_cv_debugger finding the spinlock held) debug.c:255 still evaluates
+  `emit_waiters (b, cv->waiters)` — WITHOUT the spinlock.  These are plain reads with no logged
+  operation and no lock that would justify performing them together with a neighbouring event;
+  they carry no label here (see Props/C16CvObserver.lean, "limits").  Any atomic load of
+  emit_waiters by a thread that does not hold the spinlock is rejected.
+
   EXPLICIT LIMITS (rejected, never silently computed)
   * `remove_count` is a `Nat`; the increment `old → old+1` is required literally, so a log in
     which the 32-bit counter wraps is rejected (2^32 removals of one waiter struct).
@@ -168,6 +189,28 @@ structure Rec where
   epoch : Nat := 0
   deriving Repr, Inhabited
 
+/-- The entry points of debug.c that print a condition variable (debug.c:273-298). -/
+inductive DKind where
+  /-- `nsync_cv_debug_state`: blocking = 0, print_waiters = 0 -/
+  | state
+  /-- `nsync_cv_debug_state_and_waiters`: blocking = 1, print_waiters = 1 -/
+  | waiters
+  /-- `nsync_cv_debugger`: blocking = 0, print_waiters = 1 -/
+  | debugger
+  deriving DecidableEq, Repr, Inhabited
+
+def DKind.blocking : DKind → Bool
+  | .waiters => true
+  | _ => false
+
+def DKind.printWaiters : DKind → Bool
+  | .state => false
+  | _ => true
+
+/-- debug.c:246-247: does emit_cv_state take the spinlock, having loaded `word`? -/
+def dbgAcquires (k : DKind) (word : Nat) : Bool :=
+  decide (word / 2 % 2 = 1) && k.printWaiters && (k.blocking || decide (word % 2 = 0))
+
 /-- Program points.  The name says which event is expected NEXT. -/
 inductive Loc where
   | idle
@@ -270,6 +313,17 @@ inductive Loc where
   /-- cv_dequeue: `ATM_LOAD_ACQ (&nw->waiting)` [cv.c/35] of the loop that waits for the waker;
       spinlock released -/
   | nDeqSpin
+  -- emit_cv_state (debug.c), entered through nsync_cv_debug_state[_and_waiters] / nsync_cv_debugger
+  /-- debug.c:245 `ATM_LOAD (&cv->word)` [debug.c/6] -/
+  | dLd
+  /-- spinlock held by emit_cv_state: the next `ATM_LOAD (&nw->waiting)` [debug.c/0] of emit_waiters,
+      or the release `ATM_STORE_REL (&cv->word, word)` [debug.c/7] -/
+  | dWalk
+  /-- emit_waiters: `ATM_LOAD (&w->remove_count)` [debug.c/1] of the element whose `waiting` was just
+      loaded; spinlock held -/
+  | dRc
+  /-- emit_cv_state is done: `ret` next -/
+  | dRet
   deriving DecidableEq, Repr, Inhabited
 
 /-- The thread is executing code outside cv.c's handling of this cv: foreign accesses allowed. -/
@@ -287,6 +341,8 @@ inductive Cont where
   | sig
   /-- cv.c:463 / 475 cv_enqueue or cv_dequeue -/
   | waitn
+  /-- debug.c:248 emit_cv_state -/
+  | dbg
   deriving DecidableEq, Repr, Inhabited
 
 structure Thr where
@@ -348,11 +404,20 @@ structure Thr where
   /-- ghost: the unlinkers of the wait's instance, frozen when the wait loop is left (the pooled
       record may be reused by another thread before this call returns) -/
   exitUnl : List Unl := []
+  /-- debug call: which entry point -/
+  dk : DKind := .state
+  /-- emit_cv_state: the local `word` as loaded at debug.c:245 (the test-and-set overwrites it
+      with its return value: `old`) -/
+  dWord : Nat := 0
+  /-- emit_waiters under the spinlock: number of queue elements printed so far -/
+  dIdx : Nat := 0
   deriving Repr, Inhabited
 
 /-- Sites of atomic operations on the cv word. -/
 inductive WSite where
   | spin0 | spin2 | waitRel | waitRel2 | sigLd | sigRel | bcLd | bcRel | enqRel | deqRel
+  /-- debug.c/6 and debug.c/7 (emit_cv_state) -/
+  | dbgLd | dbgRel
   deriving DecidableEq, Repr
 
 /-- Sites of atomic operations of cv.c on record fields. -/
@@ -363,6 +428,8 @@ inductive RSite where
   | wake | ready | enqSt | deqLd | deqSt
   /-- cv.c/35: the wait loop of the repaired cv_dequeue -/
   | deqSpin
+  /-- debug.c/0 and debug.c/1 (emit_waiters called by emit_cv_state) -/
+  | dbgW | dbgRc
   deriving DecidableEq, Repr
 
 /-- Sites of atomic operations of cv.c on the mutex word. -/
@@ -433,6 +500,10 @@ inductive Event where
   | noteSeen (t : Tid)
   /-- the waiting thread calls nsync_note_notify on its cancel note (sem_wait.c:65) -/
   | noteNotify (t : Tid)
+  /-- `<t> call nsync_cv_debug_state|nsync_cv_debug_state_and_waiters|nsync_cv_debugger cv …` -/
+  | callDebug (t : Tid) (k : DKind)
+  /-- `<t> ret nsync_cv_debug_state|… -` -/
+  | retDebug (t : Tid) (k : DKind)
   /-- anything else -/
   | skip
   deriving DecidableEq, Repr
@@ -444,7 +515,7 @@ def Event.tid : Event → Option Tid
   | .nret t | .wordLd t .. | .wordCas t .. | .wordSt t .. | .recLd t .. | .recSt t .. | .recCas t ..
   | .muLd t .. | .muCas t .. | .semPdEnter t .. | .semPdRet t .. | .semPEnter t _ | .semPRet t _
   | .semV t _ | .wInit t _ | .nwInit t _ | .fLd t .. | .fSt t .. | .fCas t .. | .noteSeen t
-  | .noteNotify t => some t
+  | .noteNotify t | .callDebug t _ | .retDebug t _ => some t
 
 structure Config where
   /-- binary semaphores (`V`: count := 1) instead of counting ones -/
@@ -580,6 +651,7 @@ def afterAcquire (s : State) (t : Tid) (x : Thr) : State :=
     s2.setThr t { x with loc := .wEnq, old := { spin := false, ne := true } }
   | .waitChk => s.setThr t { x with loc := .wChk2 }
   | .waitn => s.setThr t { x with loc := .nLocked }
+  | .dbg => s.setThr t { x with loc := .dWalk }   -- debug.c:248-249, `acquired = 1`
   | .sig =>
     -- cv.c:322-383 / 411-425: all unlinking is performed here (spinlock just taken)
     let sel := if x.bcast then s.queue else sigSelect s.recs s.queue
@@ -636,6 +708,11 @@ def stepWordLd (s : State) (t : Tid) (site : WSite) (obs : Nat) : Except String 
     need (x.bcast = (site == .bcLd)) "ld cv word: signal/broadcast site mismatch" <|
     .ok (s.setThr t (if obs / 2 % 2 = 1 then { x with loc := .spLd0, cont := .sig, setNE := false, seq0 := s.seq }
                      else { x with loc := .kRet, seq0 := s.seq }))
+  | .dbgLd, .dLd =>
+    -- debug.c:245-250
+    .ok (s.setThr t (if dbgAcquires x.dk obs = true
+                     then { x with dWord := obs, dIdx := 0, loc := .spLd0, cont := .dbg, setNE := false }
+                     else { x with dWord := obs, loc := .dRet }))
   | _, _ => .error "ld cv word: not expected here"
 
 def stepWordCas (s : State) (t : Tid) (exp new obs : Nat) (ok : Bool) : Except String State :=
@@ -691,6 +768,10 @@ def stepWordSt (s : State) (t : Tid) (site : WSite) (new obs : Nat) : Except Str
   | .deqRel, .nDeqRelW =>
     need (new = x.old.enc) "st cv word: cv_dequeue must store old_word" <|
     release s t new obs fun s1 => .ok (s1.setThr t { x with loc := .nDeqSpin })
+  | .dbgRel, .dWalk =>
+    -- debug.c:257-259: `word` is what nsync_spin_test_and_set_ returned
+    need (new = x.old.enc) "st cv word: emit_cv_state must store the word returned by nsync_spin_test_and_set_" <|
+    release s t new obs fun s1 => .ok (s1.setThr t { x with loc := .dRet })
   | _, _ => .error "st cv word: not expected here"
 
 /-- Loads of record fields by cv.c. -/
@@ -785,6 +866,16 @@ def stepRecLd (s : State) (t : Tid) (site : RSite) (r : Rid) (obs : Nat) : Excep
       let st' := match rc.stat with | .listed u => RStat.listed u | _ => RStat.idle
       .ok (s.setRec r { rc with stat := st' } |>.setThr t { x with loc := .nOut, mine := x.mine.erase r })
     else .ok s
+  | .dbgW, .dWalk =>
+    -- emit_waiters (debug.c:147-167): the next element of `cv->waiters`
+    need (s.queue[x.dIdx]? = some r) "emit_waiters: not the next element of the cv queue" <|
+    need (r.isMucv = true) "emit_waiters: element is a bare nsync_waiter_s (no WAITER_TAG: the walk stops)" <|
+    need (obs = b2n rc.waiting) "ld waiting: observed value differs from the model" <|
+    .ok (s.setThr t { x with loc := .dRc })
+  | .dbgRc, .dRc =>
+    need (s.queue[x.dIdx]? = some r) "emit_waiters: not the element whose `waiting` was just loaded" <|
+    need (obs = rc.rc) "ld remove_count: observed value differs from the model" <|
+    .ok (s.setThr t { x with dIdx := x.dIdx + 1, loc := .dWalk })
   | _, _ => .error "ld record field: not expected here"
 
 def stepRecSt (s : State) (t : Tid) (site : RSite) (r : Rid) (new obs : Nat) : Except String State :=
@@ -1087,6 +1178,10 @@ def step (cfg : Config) (s : State) : Event → Except String State
     let x := s.thr t
     need (x.loc = .cPost ∧ x.cTimed = true) "nsync_note_notify from sem_wait.c: semaphore wait did not time out" <|
     .ok (s.setThr t { x with cNotified := true })
+  | .callDebug t k => stepCall s t { (s.thr t).fresh .dLd with dk := k }
+  | .retDebug t k =>
+    let x := s.thr t
+    stepRet s t (decide (x.loc = .dRet ∧ k = x.dk)) "ret debug: not at the end of emit_cv_state"
 
 def run (cfg : Config) (s : State) : List Event → Except String State
   | [] => .ok s
@@ -1134,6 +1229,7 @@ def touches (s : State) : Event → List Rid
   | .wordSt t site _ _ =>
     match site with
     | .sigRel | .bcRel => ((s.thr t).list.head?).toList    -- wake_waiters reads first_nw->flags, cv_mu, l_type
+    | .dbgRel => s.queue                                   -- emit_waiters under the spinlock: the walk
     | _ => []
   | .muLd t site _ =>
     match site with
